@@ -24,7 +24,7 @@ VARIABLES s, used, last
 vars == <<s, used, last>>
 
 BudgetKeys == {"user.release2", "user.release3", "user.rollback", "user.scale", "user.approve", "user.pause", "user.resume",
-               "user.disable", "user.enable", "user.delete", "user.editplan", "user.jump", "user.editidle", "user.deleteidle", "env.unready", "total"}
+               "user.disable", "user.enable", "user.delete", "user.editplan", "user.jump", "user.editidle", "user.deleteidle", "user.release3late", "env.unready", "total"}
 
 ClassOf(a) == IF a \in JumpActs THEN "user.jump" ELSE a
 IsDisturbance(c) == c \in BudgetKeys /\ c \notin {"user.release2", "user.approve", "env.unready", "total"}
@@ -37,6 +37,7 @@ UserEnabled(st, a) ==
   /\ st.ro.exists
   /\ CASE a = "user.release2" -> st.user.rev = 1 /\ st.ro.phase = "Healthy" /\ ~st.ro.deleting
        [] a = "user.release3" -> st.user.rev = 2 /\ inProg
+       [] a = "user.release3late" -> st.user.rev = 2 /\ st.ro.phase = "Healthy" /\ st.ro.succeeded = "True" /\ ~st.ro.deleting
        [] a = "user.rollback" -> st.user.rev >= 2 /\ inProg /\ st.wl.n[st.user.rev] > 0 /\ st.wl.n[1] > 0 /\ st.ro.reason \in {"InRolling", "Paused"}
        [] a = "user.scale"    -> inProg
        [] a = "user.approve"  -> inProg /\ st.ro.hasSub /\ st.ro.state = "StepPaused"
@@ -77,7 +78,13 @@ GhostAfter(p, a, q0) ==
       rs == rs0 \cup add
       sorted == SelectSeq(<<1, 2, 3, 4, 5>>, LAMBDA i : i \in rs)
   IN  [q0 EXCEPT !.ghost.readySteps = IF q0.ro.exists THEN sorted ELSE p.ghost.readySteps,
-                 !.ghost.brEver = p.ghost.brEver \/ q0.br.exists,
+                 !.ghost.brEver = (p.ghost.brEver /\ a # "user.release3late") \/ q0.br.exists,
+                 !.ghost.readyRepl =
+                   LET base == IF q0.ro.exists /\ q0.wl.exists /\ q0.ro.canaryRev = p.ro.canaryRev /\ q0.wl.R = p.wl.R THEN p.ghost.readyRepl ELSE 0
+                       rdy  == /\ q0.ro.exists /\ q0.wl.exists /\ q0.br.exists /\ q0.br.bstate = "Ready" /\ q0.br.phase = "Progressing" /\ q0.br.obsGenOk
+                               /\ q0.br.updRev = q0.ro.canaryRev /\ q0.br.batch + 1 \in 1..Len(q0.br.plan)
+                   IN  IF ~q0.ro.exists THEN p.ghost.readyRepl
+                       ELSE IF rdy THEN Max(base, PlannedOf(q0.br.plan[q0.br.batch + 1], q0.wl.R)) ELSE base,
                  !.ghost.jumpBack = p.ghost.jumpBack \/ (a \in JumpActs /\ p.ro.hasSub /\ JumpTarget(a) < p.ro.step),
                  !.ghost.origOk = OrigOkOf(q0),
                  \* only pods of the BatchRelease's update revision carry its labels: replacing them removes labels
@@ -125,10 +132,10 @@ Inv_C10b == C10b(s)
 Inv_C18b == C18b(s) \/ KF_HoldLeft(s) \/ KF_DisSup(s)
 
 ActOK(n) == ActHolds(n, s, T(last'), s')
-Act_C01 == [][ActOK("C01a") /\ ActOK("C01ro") /\ ActOK("C01b") /\ ActOK("C01c")]_vars
-Act_C02 == [][ActOK("C02") /\ ActOK("C02pause") /\ ActOK("C02promote") /\ ActOK("C02edit")]_vars
-\* KF-C03-unpin-window-after-plan-edit-to-full-step
+\* KF-C03-unpin-window-after-plan-edit-to-full-step, KF-C02-current-step-replicas-edit-ignored
 KF_EditFull == used["user.editplan"] > 0
+Act_C01 == [][ActOK("C01a") /\ ActOK("C01ro") /\ ActOK("C01b") /\ ActOK("C01c")]_vars
+Act_C02 == [][ActOK("C02") /\ ActOK("C02pause") /\ ActOK("C02promote") /\ ActOK("C02edit") /\ (ActOK("C02adv") \/ KF_EditFull)]_vars
 Act_C03 == [][ActOK("C03a") /\ ActOK("C03b") /\ (ActOK("C03c") \/ KF_EditFull)]_vars
 Act_C10 == [][ActOK("C10a")]_vars
 Act_C11 == [][ActOK("C11a") /\ ActOK("C11b") /\ ActOK("C11c") /\ ActOK("C11d")]_vars
